@@ -117,6 +117,13 @@ def run_case(case, explicit=False):
         out.append(('stop:no-close:%s' % state_before, 'stop in %s did not close the live connection' % state_before))
     if sim.state != 'IDLE':
         out.append(('stop:state:%s' % sim.state, 'state after stop is %s' % sim.state))
+    if case.get('quick_restart'):
+        # the operator starts the peer again at once - before the connectionLost of the stopped connection has been delivered,
+        # while late answers may still arrive; environment events follow, then the peer behaves: the session must come up
+        # and automatic recovery must be in force
+        out += quick_restart(d, case, explicit)
+        return d, out, {'cfg': cfg, 'prefix': prefix, 'cont': list(d.history[len(prefix):]), 'nontrivial': True,
+                        'stopped_in': state_before + '+quick-restart', 'pending_attempt': pend}
     # ---------------------------------------------------------------- silence
     mark = sim.mark()
     cont = []
@@ -220,6 +227,39 @@ def run_case(case, explicit=False):
                     'pending_attempt': pend}
 
 
+def quick_restart(d, case, explicit):
+    sim, r, cfg = d.sim, d.sim.reactor, case['cfg']
+    out = []
+    code, body = sim.manual_start()
+    r.settle(fire_due=True)
+    if code != 200 or not body or body.get('status') is not True:
+        out.append(('quick-restart:reply', 'manual-start right after the stop answered %s %r' % (code, body)))
+    if explicit:
+        for ev in case['cont']:
+            if list(ev) not in cont_enabled(d):
+                return out
+            d.apply(list(ev))
+    else:
+        for ch in case['cont_choices']:
+            en = [e for e in cont_enabled(d) if e[0] in ('io', 'refused', 'tick', 'close')]
+            if not en:
+                break
+            d.apply(en[ch % len(en)])
+    out += [f for f in d.failures if f[0].startswith(('escaped', 'livelock'))]
+    # every armed timer may fire, every pending I/O completion arrives, failed attempts fail: then the peer cooperates
+    while r.pending_io():
+        r.deliver_io(0)
+        r.settle(fire_due=True)
+    for c_ in list(r.attempts()):
+        r.refuse(c_)
+        r.settle(fire_due=True)
+    bound = cfg['idle_hold'] + max(cfg['connect_retry'], 30) + 240 + 1
+    if ss.cooperate(sim, sim.now + bound, peer_hold=90) is None:
+        out.append(('quick-restart:not-established:%s' % sim.state,
+                    'not ESTABLISHED within %ss after stop + immediate start (pending timers %r)' % (bound, [c_.name for c_ in r.pending()])))
+    return out
+
+
 def _mtype(b):
     return {1: 'OPEN', 2: 'UPDATE', 3: 'NOTIFICATION', 4: 'KEEPALIVE'}.get(b[18] if len(b) > 18 else 0, 'other')
 
@@ -232,14 +272,15 @@ def shards(tier):
 def run_shard(spec, seed, col, tier):
     def body(case):
         d, res, info = run_case(case)
-        explicit = {'cfg': info['cfg'], 'prefix': info['prefix'], 'cont': info['cont']}
+        explicit = {'cfg': info['cfg'], 'prefix': info['prefix'], 'cont': info['cont'], 'quick_restart': bool(case.get('quick_restart'))}
         col.case(explicit, info['nontrivial'], labels=['crt:%d' % info['cfg']['connect_retry'],
                                                       'stopped-in:' + _stop_state(info)])
         for sig, detail in res:
             col.fail(sig, explicit, detail)
     strat = st.fixed_dictionaries({'cfg': st.sampled_from(CONFIGS), 'warm': st.sampled_from(['none', 'none', 'opensent', 'openconfirm', 'established', 'established', 'preboot']),
                                    'prefix_choices': st.lists(st.integers(0, 999), min_size=0, max_size=16),
-                                   'cont_choices': st.lists(st.integers(0, 999), min_size=0, max_size=6)})
+                                   'cont_choices': st.lists(st.integers(0, 999), min_size=0, max_size=6),
+                                   'quick_restart': st.sampled_from([False, False, True])})
     hyp_run(col, strat, body, seed, spec['examples'])
 
 
